@@ -38,13 +38,15 @@ ModelAct(ev) ==
       [] ev.e = "RRead"  -> RRead
       [] ev.e = "RDisc"  -> RDisc
       [] ev.e = "Fault"  -> Fault(ev.k)
+      [] ev.e = "ForeignOffer" -> ForeignOffer(ev.w)
       [] OTHER           -> FALSE
 
 FailedEnd(o) ==
     LET nflt == IF o.applied THEN 1 ELSE 0 IN
-    {p \in {"Safe", "FaultDetected", "CleanSuccess"} :
+    {p \in {"Safe", "FaultDetected", "CleanSuccess", "ForeignInert"} :
         CASE p = "Safe"          -> ~P_Safe(o.ann, o.rs, o.re, o.eq = 1)
           [] p = "FaultDetected" -> ~P_FaultDetected(o.ann, o.k, nflt, o.rs, o.re)
+          [] p = "ForeignInert"  -> o.trap # 0
           [] p = "CleanSuccess"  -> ~P_CleanSuccess(nflt, TRUE, o.rs, o.re, o.ss, o.se, o.eq = 1)}
 
 ResetStep(ev) ==
@@ -55,7 +57,9 @@ ResetStep(ev) ==
 EchoStep(ev) ==
     /\ \/ ModelAct(ev)
        \/ (~ENABLED ModelAct(ev)) /\ UNCHANGED vars
-    /\ UNCHANGED <<cid, viol, ndiv, divs, ncases, nfaulted, nclean>>
+    /\ viol' = IF ev.e = "ForeignOffer" /\ ~P_ForeignInert(ev.o.rs0, ev.o.re0, ev.o.rs, ev.o.re, ev.o.trap)
+               THEN viol \cup {[case |-> cid, line |-> l, prop |-> "ForeignInert", e |-> ev.e]} ELSE viol
+    /\ UNCHANGED <<cid, ndiv, divs, ncases, nfaulted, nclean>>
 
 EndStep(ev) ==
     LET o == ev.o
